@@ -35,6 +35,8 @@ type fail struct {
 
 var errCB = errors.New("verif: callback error")
 
+var busyErr error // a genuine SQLITE_BUSY error value, provoked once per process
+
 func TestC11(t *testing.T) {
 	run := vk.New("C11", "replay")
 	defer run.Finish()
@@ -44,6 +46,12 @@ func TestC11(t *testing.T) {
 	}
 	restore := faultsql.Install()
 	defer restore()
+	os.MkdirAll(scratch, 0o755)
+	if be, err := faultsql.GenuineBusy(scratch); err == nil {
+		busyErr = be
+	} else {
+		t.Fatalf("no SQLITE_BUSY to inject: %v", err)
+	}
 	configs := []string{"memory", "memory-paged", "sqlite-paged", "sqlite-file", "sqlite-mem", "sqlite-batch1", "sqlite-batch2", "sqlite-batch3", "sqlite-batch5", "durable", "durable-chunk400", "durable-strict", "durable-strict-chunk400"}
 	batches := []int{1, 2, 3, 5, 100, 0, -1}
 	maxLen := run.Scale(6, 18)
@@ -121,12 +129,12 @@ func TestC11(t *testing.T) {
 						}
 						if sb == 0 {
 							for r := 1; r <= S; r++ {
-								fs = append(fs, fail{Kind: "sql-row", K: r})
+								fs = append(fs, fail{Kind: "sql-row", K: r}, fail{Kind: "sql-row-busy", K: r})
 							}
 						} else {
 							for q := 0; q*sb < S; q++ {
 								for r := 1; r <= sb && q*sb+r <= S; r++ {
-									fs = append(fs, fail{Kind: "sql-row", K: r, Q: q})
+									fs = append(fs, fail{Kind: "sql-row", K: r, Q: q}, fail{Kind: "sql-row-busy", K: r, Q: q})
 								}
 							}
 						}
@@ -207,6 +215,12 @@ func one(run *vk.Run, cfg string, st *stores.Opened, offs []ebu.Offset, batch, L
 	}
 	if f.Kind == "sql-row" {
 		faultsql.Set(faultsql.Plan{Match: "FROM events", QueryN: f.Q, FailRow: f.K})
+		defer faultsql.Set(faultsql.Plan{})
+	}
+	if f.Kind == "sql-row-busy" {
+		// the row iteration fails once with a genuine SQLITE_BUSY (a writer held the lock for longer
+		// than the busy timeout): an error like any other - reported, after a gap-free prefix
+		faultsql.Set(faultsql.Plan{Match: "FROM events", QueryN: f.Q, FailRow: f.K, Err: busyErr})
 		defer faultsql.Set(faultsql.Plan{})
 	}
 	var got []int
@@ -295,7 +309,7 @@ func one(run *vk.Run, cfg string, st *stores.Opened, offs []ebu.Offset, batch, L
 				injected = true
 			}
 		}
-	case "sql-row":
+	case "sql-row", "sql-row-busy":
 		_, fired := faultsql.Stats()
 		injected = fired > 0
 	}
@@ -324,6 +338,9 @@ func one(run *vk.Run, cfg string, st *stores.Opened, offs []ebu.Offset, batch, L
 		if S > 0 && err == nil {
 			viol("nil-with-cancelled-context")
 		}
+	case "sql-row-busy":
+		// a transient condition: an implementation may report it, or recover from it - but then it has
+		// delivered everything exactly once (rules 1 and 2 above)
 	default:
 		if injected && err == nil {
 			viol("store-error-swallowed")
